@@ -423,6 +423,19 @@ class HostileCtx(object):
             if len(reps) > nfr:
                 raise Violation("C10", "one-report", "%s/coalesced/more-reports-than-frames" % state,
                                 "%d frames in one chunk produced %d handler reports: %s" % (nfr, len(reps), [r[0] for r in reps]))
+            # nothing is reported any more once the agent has closed the connection (what followed the
+            # closing message in the same segment was never read as far as the peer can tell)
+            seen_lose = False
+            own_open = 1      # (yabgp reports an OPEN after its FSM has acted on it: that one report may follow the close)
+            for e in w.log[pos:]:
+                if e[2] == "lose" and e[3] == cid:
+                    seen_lose = True
+                elif seen_lose and e[2] == "h" and e[3] == "open_received" and own_open:
+                    own_open = 0
+                elif seen_lose and e[2] == "h" and e[3] in REPORTS:
+                    raise Violation("C10", "one-report", "%s/coalesced/report-after-close" % state,
+                                    "the agent closed the connection while handling a segment with %d frames and reported %s "
+                                    "from the same segment afterwards" % (nfr, e[3]))
             kinds = ["burst"]
             for fh in frames_hex:
                 fr, rest = rp.deframe(bytes.fromhex(fh))
